@@ -133,7 +133,7 @@ func (e *C09) Exhaustive(tier string) bool { return true }
 func (e *C09) Plan(tier string, seed uint64) int {
 	n := len(canonHeaders)*24 + len(canonHeaders) + 400
 	if tier == "thorough" {
-		n += 40000
+		n += 400000
 	}
 	return n
 }
